@@ -102,8 +102,11 @@ def tool_env():
     return e
 
 
-def run_tool(exe, args, stdin=b"", timeout=10, cwd=None):
+def run_tool(exe, args, stdin=b"", timeout=10, cwd=None, retry=True):
     rc, out, err = C.sh([exe] + list(args), input=stdin, env=tool_env(), timeout=timeout, cwd=cwd)
+    if rc == 124 and retry:
+        # a loaded machine is not a hang: only a second, much longer run decides
+        rc, out, err = C.sh([exe] + list(args), input=stdin, env=tool_env(), timeout=120, cwd=cwd)
     return rc, out, err
 
 
@@ -189,10 +192,10 @@ def select(objs, r, logical):
         if k == "one":
             idx = [r[1]]
         elif k == "fromto":
-            idx = range(r[1], r[2] + 1)
+            if r[2] < r[1]:
+                raise NoSpec("reversed range: rejected argument")
+            idx = range(r[1], min(r[2], w) + 1)
         elif k == "from":
-            if r[1] > w:
-                raise NoSpec("open range beyond the level (known finding: 2^32 iterations)")
             idx = range(r[1], w)
         elif k == "wrap":
             if w == 0:
@@ -216,6 +219,8 @@ def select(objs, r, logical):
     if k == "one":
         return first_os(r[1])
     if k == "fromto":
+        if r[2] < r[1]:
+            raise NoSpec("reversed range: rejected argument")
         if r[2] - r[1] > 100000:
             raise NoSpec("huge")
         res = []
@@ -396,23 +401,31 @@ def replay_text(kind, arg, tool, args, extra=""):
 def crash_class(args, rc, err):
     if b"hwloc_bitmap_sscanf: Assertion" in err:
         return "bitmap-sscanf-assert"
-    h = hang_class(args)
-    if h:
-        return h
-    if rc == 124 and any(re.search(r"[:=]\d+-(\.|$)", a) for a in args):
-        return "calc-open-range-beyond-level-2pow32-iterations"
-    return None
+    return hang_class(args)
+
+
+def _i32(v):
+    v &= 0xffffffff
+    return v - (1 << 32) if v >= (1 << 31) else v
 
 
 def hang_class(args):
-    """arguments that make hwloc_calc_append_object_range iterate ~2^32 times or hit its assert()"""
+    """numbers that do not fit in an int: after the long -> int truncation of hwloc_calc_parse_range the amount
+    is -1 with wrap-around (assert) or negative (~2^32 iterations).  (The small-number forms of these classes,
+    X-Y reversed, X:-N, X- beyond the level, were repaired by fix 01261ca.)"""
     for a in args:
-        for m in re.finditer(r"[:=](\d+)(?:-(\d+)|:(-?\d+))(?=\.|$)", a):
-            x = int(m.group(1))
-            if m.group(2) is not None and int(m.group(2)) < x - 1:
-                return "calc-reversed-range-2pow32-iterations"
-            if m.group(3) is not None and int(m.group(3)) < 0:
-                return "calc-negative-width-assert"
+        for m in re.finditer(r"[:=](\d+)(?:-(\d+)|:(\d+))(?=\.|$)", a):
+            x = min(int(m.group(1)), (1 << 63) - 1)
+            if m.group(2) is not None:
+                y = min(int(m.group(2)), (1 << 63) - 1)
+                if y >= x and _i32(y - x + 1) < -1:
+                    return "calc-int-truncation-2pow32-iterations"
+            if m.group(3) is not None:
+                n = _i32(min(int(m.group(3)), (1 << 63) - 1))
+                if n == -1:
+                    return "calc-int-truncation-assert"
+                if n < -1:
+                    return "calc-int-truncation-2pow32-iterations"
     return None
 
 
@@ -434,7 +447,7 @@ def check_calc_topology(ctx, kind, arg, ncmd, nmal, rng, corpus_cmds=()):
         dump_text = "\n".join(lines[1:]) + "\n"
 
         def tool(args, stdin=b""):
-            rc, out, err = run_tool(calc, targs + args, stdin=stdin)
+            rc, out, err = run_tool(calc, targs + args, stdin=stdin, retry=not hang_class(args))
             if crashed(rc, err):
                 key = "crash:calc:" + (crash_class(args, rc, err) or "-".join(esc(a) for a in args)[:80])
                 ctx.violation(key, "hwloc-calc crashed / sanitizer report / timeout (rc=%d) on %r" % (rc, args),
@@ -530,7 +543,7 @@ def check_calc_topology(ctx, kind, arg, ncmd, nmal, rng, corpus_cmds=()):
             else:
                 args = [rng.choice(["pu:0", "all", "core:all"])] + rng.choice(G.ODD_OPTIONS)
                 cls = "odd-option"
-            if hang_class(args) or G.HANG_RE.search(" ".join(args)) or any(re.search(r"[:=]\d+-(\.|$)", a) for a in args):
+            if hang_class(args):
                 ctx.bump("malformed-skipped-known-hang-class")
                 continue
             rc, out, err = tool(args)
@@ -972,6 +985,7 @@ def check_distrib(ctx, kind, arg, tag, rng):
         info = G.Info(lines[1:])
         npu = info.npus()
         root = info.root["cs"]
+        normal = [d for d in range(info.depth) if info.levels.get(d)]
         for n in sorted(set([1, 2, npu - 1, npu, npu + 1, rng.randrange(1, 2 * npu + 2), 0])):
             if n < 0:
                 continue
@@ -980,16 +994,40 @@ def check_distrib(ctx, kind, arg, tag, rng):
             if rng.random() < 0.25:
                 extra.append("--reverse")
                 flags = 1
+            # --from / --to / --at: several roots, bounded depth
+            d_from, d_to = 0, 2147483647
+            r = rng.random()
+            if r < 0.45 and len(normal) > 1:
+                d_from = rng.choice(normal)
+                if rng.random() < 0.5:
+                    d_to = rng.choice([d for d in normal if d >= d_from])
+                    if d_to == d_from and rng.random() < 0.5:
+                        extra += ["--at", G.type_spelling(rng, info, d_from, info.level_type[d_from])]
+                    else:
+                        extra += ["--from", G.type_spelling(rng, info, d_from, info.level_type[d_from]),
+                                  "--to", G.type_spelling(rng, info, d_to, info.level_type[d_to])]
+                else:
+                    extra += ["--from", G.type_spelling(rng, info, d_from, info.level_type[d_from])]
+            elif r < 0.6 and normal:
+                d_to = rng.choice(normal)
+                extra += ["--to", G.type_spelling(rng, info, d_to, info.level_type[d_to])]
+            if any(a.isdigit() for a in extra[1:] if a not in ("--reverse",)) :
+                # hwloc-distrib takes type names only (no depth numbers): keep the default
+                extra = [a for a in extra if a == "--reverse"]
+                d_from, d_to = 0, 2147483647
             single = rng.random() < 0.3
-            rc, out, err = run_tool(dis, topo_args(kind, arg) + extra + (["--single"] if single else []) + [str(n)])
             args = extra + (["--single"] if single else []) + [str(n)]
-            ctx.count("distrib|%s|%s|%s" % (arg, args, out), nontrivial=n > 0, kind="distrib",
+            rc, out, err = run_tool(dis, topo_args(kind, arg) + args)
+            ctx.count("distrib|%s|%s|%s" % (arg, args, out), nontrivial=n > 0, kind="distrib" + ("-from-to" if d_from or d_to < 2147483647 else ""),
                       sample={"topology": arg, "args": args, "stdout": out.decode("latin-1")[:200]})
             if crashed(rc, err):
                 ctx.violation("crash:distrib:%s:%d" % (tag, n), "hwloc-distrib crashed", replay_text(kind, arg, "hwloc-distrib", args, err.decode(errors="replace")[-2000:]))
                 continue
             sets = [parse_tool_set(l, "hwloc", ref) for l in out.decode("latin-1").split("\n") if l != ""]
             sets = [None if s == "huge" else s for s in sets]
+            roots_cs = union_all([o["cs"] for o in info.level(d_from)])
+            leaf_depth = min(d_to, info.depth - 1)
+            nleaves = len(info.levels.get(leaf_depth, []))
             what = None
             if rc != 0:
                 what = "exit status %d" % rc
@@ -999,10 +1037,10 @@ def check_distrib(ctx, kind, arg, tag, rng):
                 what = "empty or unparsable set"
             elif any(not s.subset(root) for s in sets):
                 what = "a set is not included in the root cpuset"
-            elif not single and n > 0 and G.BS(0).union(union_all(sets)) != root:
-                what = "the union of the sets is not the root cpuset"
-            elif n <= npu and not pairwise_disjoint(sets):
-                what = "sets overlap although N <= number of PUs"
+            elif not single and n > 0 and union_all(sets) != roots_cs:
+                what = "the union of the sets is not the union of the roots"
+            elif n <= nleaves and not pairwise_disjoint(sets):
+                what = "sets overlap although N <= number of objects at the last depth"
             elif single and any(s.weight() != 1 for s in sets):
                 what = "--single set of weight != 1"
             if what:
@@ -1010,17 +1048,11 @@ def check_distrib(ctx, kind, arg, tag, rng):
                               replay_text(kind, arg, "hwloc-distrib", args, "stdout:\n" + out.decode("latin-1")))
                 continue
             # the library's own answer
-            r = ref.ask("distrib %d 0 2147483647 %d" % (n, flags))
+            r = ref.ask("distrib %d %d %d %d" % (n, d_from, d_to, flags))
             if r and r[0] == "distrib rc=0":
                 lib = [G.BS.parse(l[2:]) for l in r[1:]]
                 if single:
-                    lib2 = []
-                    for s in lib:
-                        if flags:
-                            lib2.append(G.BS(1 << (s.fin.bit_length() - 1)))
-                        else:
-                            lib2.append(G.BS(1 << s.first()))
-                    lib = lib2
+                    lib = [G.BS(1 << (s.fin.bit_length() - 1)) if flags else G.BS(1 << s.first()) for s in lib]
                 if lib != sets:
                     ctx.violation("distrib-vs-library:%s" % tag, "hwloc-distrib %r differs from hwloc_distrib: %r vs %r" % (args, sets, lib),
                                   replay_text(kind, arg, "hwloc-distrib", args))
